@@ -123,6 +123,9 @@ func fire(c *inflight, why string) {
 // the watchdog can attribute a hang or blow-up to the rendered case. size is
 // the declared size of the input (bytes) and scales the heap budget.
 func Watched(size int, render func() []byte, f func()) *Panic {
+	if r := current.Load(); r != nil {
+		render = *r // the test's own case wins (e.g. a prelude decode inside a larger case)
+	}
 	c := &inflight{start: time.Now(), render: render, budget: uint64(size) * 16}
 	cur.Store(c)
 	p := Call(f)
